@@ -42,6 +42,35 @@ def ref_decode(b, universal):
         return ('undetermined', 'lookup')
 
 
+LINE_POOL = [b'', b'#', b' \t\f# coding: latin-1', b'# -*- coding: utf-8 -*-', b'#coding=nope', b'x = "\xe9"',
+             b'"coding: latin-1"', b'\xc3\xa9', b'# vim: set fileencoding=cp1252 :']
+EOLS = [b'\n', b'\r', b'\r\n']
+
+
+def line_files(k):
+    """every file of <= k lines over LINE_POOL x EOLS (the last line also unterminated), with and without BOM"""
+    import itertools
+    for n in range(0, k + 1):
+        for lines in itertools.product(LINE_POOL, repeat=n):
+            for eols in itertools.product(EOLS, repeat=n):
+                body = b''.join(l + e for l, e in zip(lines, eols))
+                yield body
+                if n and eols[-1] == b'\n':
+                    yield body[:-1]            # last line unterminated
+
+
+def lines263_shard(k, shard_no, nshards):
+    import vp.alphabets as A
+    items = [b for i, b in enumerate(line_files(k)) if i % nshards == shard_no]
+    items += [codecs.BOM_UTF8 + b for b in items]
+    name = '_l263_%d_%d' % (k, shard_no)
+    A.BYTES_ALPHABETS[name] = items
+    try:
+        return bytes_shard(name, 1, 0, 1, 1, None, 0)
+    finally:
+        del A.BYTES_ALPHABETS[name]
+
+
 def bytes_shard(name, n, shard_no, nshards, n_lo, slice_mod, slice_eq):
     parso = env.setup()
     from parso.utils import python_bytes_to_unicode
@@ -55,11 +84,11 @@ def bytes_shard(name, n, shard_no, nshards, n_lo, slice_mod, slice_eq):
         case = {'bytes': b.decode('latin-1'), 'kind': 'decode'}
         r1 = ref_decode(b, False)
         r2 = ref_decode(b, True)
+        # the reference is the universal-newline reading (what CPython does for source files, and what the
+        # property defines as a line); tokenize.detect_encoding over a \n-only readline differs for lone \r
         if r1 != r2:
-            ambiguous += 1         # \r-only line ends: tokenize.detect_encoding and the C tokenizer differ
-            ref = None
-        else:
-            ref = r1
+            ambiguous += 1
+        ref = r2
         try:
             got = ('ok', python_bytes_to_unicode(b))
         except Exception as e:
@@ -81,7 +110,7 @@ def bytes_shard(name, n, shard_no, nshards, n_lo, slice_mod, slice_eq):
                 acc.fail(('parse-bytes-code-differs',), case, '%r != %r' % (code, ref[1]), extra=b)
         else:
             undet += 1
-    acc.counters['reference-ambiguous-(cr-only-lines)'] += ambiguous
+    acc.counters['nl-only-reading-differs-(cr-only-lines)'] += ambiguous
     acc.counters['reference-cannot-decode'] += undet
     if shard_no == 0:
         acc.samples.append({'family': name, 'bytes': repr(b'# coding: latin-1\n\xe9')})
@@ -192,6 +221,11 @@ def run(tier, seed):
                 ('lines', 'lines15', 5, 0, None, 0), ('lines', 'lines15', 6, 6, 32, seed % 32)]
     else:
         plan = [('bytes', 'bytes15', 5, 0, None, 0), ('lines', 'lines15', 6, 0, None, 0)]
+    acc = core.Acc()
+    k = 3 if tier == 'quick' else 4
+    for a in core.pmap(MOD, 'lines263_shard', [(k, s, NSH) for s in range(NSH)]):
+        acc.merge(a)
+    R.section('PEP 263 line files <= %d lines' % k, acc, line_pool=[repr(x) for x in LINE_POOL], eols=[repr(x) for x in EOLS])
     for kind, name, n, n_lo, sm, se in plan:
         acc = core.Acc()
         fn = 'bytes_shard' if kind == 'bytes' else 'lines_shard'
@@ -200,10 +234,9 @@ def run(tier, seed):
         label = '%s<=%d' % (name, n) if not n_lo else '%s=%d/slice%d' % (name, n, se)
         R.section(label, acc, alphabet=name, n=n, symbols=alphabets.describe(name))
     R.rule = ('every byte string over `bytes15` with <= n symbols decoded by parso and by the running CPython '
-              '(tokenize.detect_encoding + bytes.decode; both the \\n-only and the universal-newline reading '
-              'must agree, else the case is skipped as ambiguous); every string over `lines15` with <= n '
+              '(tokenize.detect_encoding over universal-newline lines + bytes.decode); every string over `lines15` with <= n '
               'symbols split with both keepends values; non-trivial = byte strings with a declaration/BOM/non-'
               'ASCII byte that CPython can decode, strings with a line break or a non-breaking separator')
     R.assumptions = ['reference = tokenize.detect_encoding and codecs of the running CPython 3.12',
-                     'byte strings whose first two lines differ between \\n-only and universal newlines are skipped']
+                     'lines are split at \\n, \\r\\n and \\r as CPython does for source files']
     return R.finish(recheck)
